@@ -252,7 +252,8 @@ def replay_witness(ctx, kf):
     w = kf["witness"]
     if "rule" in w and "src" in w:
         out = oracles.resolve_rule(w["rule"])(w["src"])
-        return w["line"] not in out.split("\n")
+        if w["line"] not in out.split("\n"):
+            return True  # else: the rule may need several passes, replay the whole formatter
     if "src" in w and "line" in w:
         res = task_annotated((w["src"], w["line"]))
         return res["status"] == "ok" and not res["verbatim"]
